@@ -582,6 +582,9 @@ def shape_tags(tree):
             if isinstance(n, ast.Assign) and isinstance(n.value, ast.Name) and len(n.targets) == 1 and isinstance(n.targets[0], ast.Name) \
                     and stores.get(n.value.id, 0) > 1:
                 tags.add("copy_of_reassigned_variable")
+            if isinstance(n, ast.Assign) and isinstance(n.value, ast.Name) and len(n.targets) == 1 and isinstance(n.targets[0], ast.Name) \
+                    and isinstance(sc, ast.FunctionDef) and n.value.id in stores:
+                tags.add("copy_of_local_variable_in_function")
             if isinstance(n, ast.For) and isinstance(n.target, ast.Name):
                 inner = {id(x) for b in n.body for x in ast.walk(b)}
                 is_range = isinstance(n.iter, ast.Call) and isinstance(n.iter.func, ast.Name) and n.iter.func.id == "range"
